@@ -372,6 +372,11 @@ func (geo) Data(_ string, ip netip.Addr) (*geoip.Location, error) {
 		return &geoip.Location{Country: "US", ASN: a}, nil
 	}
 
+	// Addresses the database knows nothing about.
+	if ip.Is4() && (ip.As4()[0] == 10 || ip.As4()[0] == 192) {
+		return nil, nil
+	}
+
 	return &geoip.Location{Country: "DE", ASN: 1}, nil
 }
 
